@@ -235,6 +235,35 @@ func cloneMiddleware(next fox.HandlerFunc) fox.HandlerFunc {
 	}
 }
 
+func same(a, b any) bool { return a == b }
+
+func joined(ps []string) string { return strings.Join(ps, "&") }
+
+// handler of GET /nest/{id}: while its own context is alive it performs a Lookup of another parameter route
+// (a second context alive at the same time), checks that the two are distinct objects and that each shows its own
+// request, before and after closing the inner one
+func (r *round) nestedLookup(c fox.Context) {
+	id := c.Param("id")
+	path, want := paramReq(0, "9"+id)
+	inner := httptest.NewRequest("GET", path, nil)
+	rte, cc, _ := r.f.Lookup(c.Writer(), inner)
+	if cc == nil || rte == nil {
+		r.fail("nested Lookup GET %s inside the handler of /nest/%s found nothing", path, id)
+	} else {
+		if same(cc, c) {
+			r.fail("pool discipline: the context of the nested Lookup GET %s IS the context of the request /nest/%s being served (one pooled object handed out twice)", path, id)
+		}
+		if got := joined(paramsOf(cc)); got != joined(want) {
+			r.fail("nested Lookup GET %s shows the parameters [%s]", path, got)
+		}
+		if got := c.Param("id"); got != id {
+			r.fail("the request /nest/%s sees id=%q after a nested Lookup", id, got)
+		}
+		cc.Close()
+	}
+	echoParams(c)
+}
+
 func dpath(j int) string { return "/d/" + strconv.Itoa(j) }
 func xpath(j uint64) string { return "/x/" + strconv.FormatUint(j%3, 10) }
 func spat(i int) string  { return "/s/" + strconv.Itoa(i) + "/{id}" }
@@ -263,6 +292,11 @@ func (r *round) setup() {
 		must(f.Handle("GET", p, echoParams))
 		must(f.Handle("PUT", p, echoParams, fox.WithMiddleware(cloneMiddleware)))
 	}
+	// routes for the other exits of ServeHTTP (never written during a round)
+	must(f.Handle("GET", "/r/{id}", echoParams, fox.WithRedirectTrailingSlash(true)))
+	must(f.Handle("POST", "/r/{id}", echoParams, fox.WithRedirectTrailingSlash(true)))
+	must(f.Handle("GET", "/i/{id}", echoParams, fox.WithIgnoreTrailingSlash(true)))
+	must(f.Handle("GET", "/nest/{id}", r.nestedLookup))
 	if r.nD > 0 {
 		for _, m := range truncMethods {
 			for j := 0; j < truncN; j++ {
@@ -787,6 +821,7 @@ func (r *round) reader(tid int, rnd *hx.Rand, out *[]rec, stop *atomic.Bool) {
 	ts := r.targets()
 	req0 := httptest.NewRequest("GET", "/ver", nil)
 	rw := fox.NewTestContextOnly(httptest.NewRecorder(), req0).Writer()
+	rw2 := fox.NewTestContextOnly(httptest.NewRecorder(), req0).Writer()
 	reqs := make([]*http.Request, len(ts))
 	for i, t := range ts {
 		reqs[i] = httptest.NewRequest(t.method, t.path, nil)
@@ -797,11 +832,133 @@ func (r *round) reader(tid int, rnd *hx.Rand, out *[]rec, stop *atomic.Bool) {
 		ti := rnd.Intn(len(ts))
 		t := ts[ti]
 		record := n%r.recEvery == 0
-		kind := rnd.Intn(185)
+		kind := rnd.Intn(230)
 		if record {
 			e.call = clock.Add(1)
 		}
 		switch {
+		case kind >= 215:
+			// iterator Seqs are values: ranged twice, and from two goroutines at once, they must give the same answer and
+			// must not disturb a context that is alive in between (a Seq that keeps a pooled context across ranges would)
+			e.what = "iter-seqs"
+			nreq++
+			id := strconv.Itoa(tid) + "000" + strconv.Itoa(nreq)
+			it := r.f.Iter()
+			collect := func(seq func(func(string, *fox.Route) bool)) string {
+				var xs []string
+				seq(func(m string, rte *fox.Route) bool {
+					v, _ := verOf(rte)
+					xs = append(xs, m+" "+rte.Pattern()+"="+strconv.FormatUint(v, 10))
+					return true
+				})
+				sort.Strings(xs)
+				return strings.Join(xs, ",")
+			}
+			var seq func(func(string, *fox.Route) bool)
+			name := ""
+			switch rnd.Intn(4) {
+			case 0:
+				name, seq = "Routes(/ver)", it.Routes(it.Methods(), "/ver")
+			case 1:
+				name, seq = "Reverse(/d/1)", it.Reverse(it.Methods(), "", dpath(1))
+			case 2:
+				name, seq = "Prefix(/d/)", it.Prefix(it.Methods(), "/d/")
+			default:
+				name, seq = "All", it.All()
+			}
+			first := collect(seq)
+			// a context that stays alive across the second range
+			path, want := paramReq(rnd.Intn(len(paramRoutes)), id)
+			_, held, _ := r.f.Lookup(rw, httptest.NewRequest("GET", path, nil))
+			second := collect(seq)
+			var third string
+			wg := make(chan struct{})
+			go func() { defer close(wg); third = collect(seq) }()
+			fourth := collect(seq)
+			<-wg
+			if first == "" || second != first || third != first || fourth != first {
+				r.fail("Iter.%s by goroutine %d: ranging the same Seq again gave different answers: %q / %q / (other goroutine) %q / %q", name, tid, first, second, third, fourth)
+			}
+			if held != nil {
+				if got := joined(paramsOf(held)); got != joined(want) {
+					r.fail("pool discipline: the context of Lookup GET %s, alive while Iter.%s was ranged a second time, now shows the parameters [%s], not [%s]", path, name, got, joined(want))
+				}
+				held.Close()
+			}
+		case kind >= 200:
+			// several contexts alive at once: two Lookups that are not closed, a CloneWith of the first, a request whose
+			// handler performs a nested Lookup; preceded by a request that leaves ServeHTTP through the redirect exit.
+			// Contexts alive at the same time must be DISTINCT objects and each must keep showing its own request.
+			e.what = "contexts-alive"
+			nreq++
+			id := strconv.Itoa(tid) + "000" + strconv.Itoa(nreq)
+			if rnd.Bool() {
+				w := httptest.NewRecorder()
+				r.f.ServeHTTP(w, httptest.NewRequest("GET", "/r/"+id+"/", nil))
+				if w.Code != http.StatusMovedPermanently {
+					r.fail("GET /r/%s/ answered %d, not the trailing-slash redirect", id, w.Code)
+				}
+			}
+			p1, want1 := paramReq(rnd.Intn(len(paramRoutes)), "1"+id)
+			p2, want2 := paramReq(rnd.Intn(len(paramRoutes)), "2"+id)
+			req1, req2 := httptest.NewRequest("GET", p1, nil), httptest.NewRequest("GET", p2, nil)
+			_, c1, _ := r.f.Lookup(rw, req1)
+			_, c2, _ := r.f.Lookup(rw2, req2)
+			if c1 == nil || c2 == nil {
+				r.fail("Lookup GET %s / %s found nothing", p1, p2)
+			} else {
+				c3 := c1.CloneWith(rw, req1)
+				if same(c1, c2) || same(c1, c3) || same(c2, c3) {
+					r.fail("pool discipline: goroutine %d holds contexts for GET %s, GET %s and a CloneWith of the first at the same time, and two of them are the SAME object", tid, p1, p2)
+				}
+				w := httptest.NewRecorder()
+				r.f.ServeHTTP(w, httptest.NewRequest("GET", "/nest/"+id, nil))
+				if w.Code != 200 || joined(w.Header().Values("X-P")) != "id="+id {
+					r.fail("GET /nest/%s: status %d, params %v", id, w.Code, w.Header().Values("X-P"))
+				}
+				for _, x := range []struct {
+					what string
+					c    fox.Context
+					want []string
+					path string
+				}{{"first Lookup context", c1, want1, p1}, {"second Lookup context", c2, want2, p2}, {"CloneWith of the first", c3, want1, p1}} {
+					if got := joined(paramsOf(x.c)); got != joined(x.want) || x.c.Request().URL.Path != x.path {
+						r.fail("pool discipline: the %s (GET %s), still alive, shows the parameters [%s] and the request %s", x.what, x.path, got, x.c.Request().URL.Path)
+					}
+				}
+				c3.Close()
+				c2.Close()
+				c1.Close()
+			}
+		case kind >= 185:
+			// the remaining exits of ServeHTTP, with an id unique to the request: trailing-slash redirect (301 / 308),
+			// ignored trailing slash (200, parameters from the tsr lookup), 404
+			e.what = "exits"
+			nreq++
+			id := strconv.Itoa(tid) + "000" + strconv.Itoa(nreq)
+			w := httptest.NewRecorder()
+			switch rnd.Intn(4) {
+			case 0:
+				r.f.ServeHTTP(w, httptest.NewRequest("GET", "/r/"+id+"/", nil))
+				if w.Code != http.StatusMovedPermanently || !strings.HasSuffix(w.Header().Get("Location"), "/r/"+id) && !strings.HasSuffix(w.Header().Get("Location"), id) {
+					r.fail("GET /r/%s/: status %d Location %q", id, w.Code, w.Header().Get("Location"))
+				}
+			case 1:
+				r.f.ServeHTTP(w, httptest.NewRequest("POST", "/r/"+id+"/", nil))
+				if w.Code != http.StatusPermanentRedirect || !strings.HasSuffix(w.Header().Get("Location"), id) {
+					r.fail("POST /r/%s/: status %d Location %q", id, w.Code, w.Header().Get("Location"))
+				}
+			case 2:
+				r.f.ServeHTTP(w, httptest.NewRequest("GET", "/i/"+id+"/", nil))
+				if w.Code != 200 || joined(w.Header().Values("X-P")) != "id="+id {
+					r.fail("GET /i/%s/ (ignored trailing slash): status %d, params %v", id, w.Code, w.Header().Values("X-P"))
+				}
+			default:
+				r.f.ServeHTTP(w, httptest.NewRequest("GET", "/nope/"+id, nil))
+				if w.Code != http.StatusNotFound {
+					r.fail("GET /nope/%s: status %d", id, w.Code)
+				}
+			}
 		case kind >= 150:
 			// answers computed from the SET OF METHOD ROOTS of the tree the request loaded: the Allow header of
 			// OPTIONS *, of OPTIONS <path> and of a 405. The verb families spell their version in the method name, so
@@ -966,7 +1123,7 @@ func (r *round) reader(tid int, rnd *hx.Rand, out *[]rec, stop *atomic.Bool) {
 			e.what = "Iter"
 			it := r.f.Iter()
 			e.vs = r.snapshotOf(it.All())
-			if l := r.f.Len(); l < r.K+2+r.nB+famSize*r.nC+2*len(paramRoutes)+2*truncN*r.nD+r.nE {
+			if l := r.f.Len(); l < r.K+2+r.nB+famSize*r.nC+2*len(paramRoutes)+4+2*truncN*r.nD+r.nE {
 				r.fail("Len() = %d", l)
 			}
 		default:
